@@ -1136,6 +1136,16 @@ impl<T: Serialize + for<'de> Deserialize<'de> + Clone + PartialEq + Send + Sync 
 
             // Apply entry to state
             match entry.transaction_type {
+                // A batch record without a value is a deletion made inside the batch
+                TransactionType::Batch if entry.value.is_none() => {
+                    let mut state_guard = self.state.write().map_err(|_| {
+                        P2PError::Storage(StorageError::LockPoisoned(
+                            "write lock failed".to_string().into(),
+                        ))
+                    })?;
+                    state_guard.remove(&entry.key);
+                    entries_recovered += 1;
+                }
                 TransactionType::Upsert | TransactionType::Batch => {
                     if let Some(value_data) = entry.value {
                         match postcard::from_bytes::<T>(&value_data) {
